@@ -7,6 +7,11 @@ Run with the environment of the codec harness' Python target (PYTHONPATH = <work
                                                  stdout: JSON {"out": [...]}
 case  = {"tid": <model type id>, "ops": [OP...]}
 OP    = {"set": i, "x": X} | {"ufb": X} | {"ctor": [X...]}               (i = index among the non-padding fields)
+        | {"setin": [p...], "i": i, "x": X}      obj.<p...>.<field i> = X
+        | {"mut": [p...], "i": i, "j": j, "x": X, "view": bool}   a = obj.<p...>.<field i>; a[j] = X  (or through the view a[j:])
+        | {"iadd": [p...], "i": i, "z": "<int>"}                 a = obj.<p...>.<field i>; a += z
+        | {"alias": i, "a": X, "j": j, "x": X}                   a = X (ndarray); obj.<field i> = a; a[j] = X
+case may also be {"conv": DT, "x": X}: numpy.array(X, DT).flatten() -> {"conv": "ok V..." | "<exception>"}
 X     = {"v": V} | {"l": [X...]} | {"d": [[i, name, X]...]} | {"nd": DT, "e": [X...]} | {"new": tid, "kw": [X...]}
 V     = null | true | false | {"i": "<dec>"} | {"f": "<hex binary64>"} | {"s": [code points]} | {"y": [bytes]} | {"l": [V...]}
         | {"d": [[i, name, V]...]} | {"a": DT, "e": [V...]}               DT = b | u8.. | i8.. | f16.. | o
@@ -88,6 +93,28 @@ def ev(x):
     raise ValueError('bad expression %r' % (x,))
 
 
+def nav(obj, tid: int, path):
+    """obj.<p1>.<p2>... through composite-typed fields -> (instance, its model type id); AttributeError like Python raises it"""
+    for p in path:
+        fs = fields_of(tid)
+        if p >= len(fs):
+            raise AttributeError('no such field')
+        f = fs[p]
+        sub = getattr(obj, drv.attr_name(ORDER[tid], f['name']))
+        if f['type']['k'] != 'ref' or sub is None:
+            # a None (inactive union option) or an ndarray / int has none of the generated attributes
+            raise AttributeError('%s has no generated attributes' % type(sub).__name__)
+        obj, tid = sub, ORDER.index(f['type']['id'])
+    return obj, tid
+
+
+def field_attr(tid: int, i: int) -> str:
+    fs = fields_of(tid)
+    if i >= len(fs):
+        raise AttributeError('no such field')
+    return drv.attr_name(ORDER[tid], fs[i]['name'])
+
+
 def fbits(x) -> str:
     x = float(x)
     if x != x:
@@ -124,7 +151,19 @@ def ser_hex(obj):
     return b''.join(bytes(frag) for frag in ns.serialize(obj)).hex()
 
 
+def run_conv(case) -> dict:
+    """{"conv": DT, "x": X}: numpy.array(<X>, DT).flatten() -- the NumPy laws the model assumes"""
+    try:
+        with np.errstate(all='ignore'):
+            a = np.array(ev(case['x']), DT[case['conv']]).flatten()
+        return {'conv': 'ok' + ''.join(' ' + show(e) for e in a)}
+    except Exception as ex:  # noqa: BLE001
+        return {'conv': type(ex).__name__}
+
+
 def run_case(case) -> dict:
+    if 'conv' in case:
+        return run_conv(case)
     tid = case['tid']
     cls = cls_of(tid)
     obj = cls()
@@ -143,6 +182,28 @@ def run_case(case) -> dict:
                 ns.update_from_builtin(obj, val)
             elif 'ctor' in op:
                 obj = ev({'new': tid, 'kw': op['ctor']})
+            elif 'setin' in op:
+                val = ev(op['x'])
+                sub, st = nav(obj, tid, op['setin'])
+                setattr(sub, field_attr(st, op['i']), val)
+            elif 'mut' in op:
+                val = ev(op['x'])
+                sub, st = nav(obj, tid, op['mut'])
+                a = getattr(sub, field_attr(st, op['i']))
+                if op.get('view') and a is not None:
+                    v = a[op['j']:]          # a slice is a view: writing through it writes the field
+                    v[0] = val
+                else:
+                    a[op['j']] = val
+            elif 'iadd' in op:
+                sub, st = nav(obj, tid, op['iadd'])
+                a = getattr(sub, field_attr(st, op['i']))
+                a += int(op['z'])
+            elif 'alias' in op:
+                a = ev(op['a'])
+                val = ev(op['x'])
+                setattr(obj, field_attr(tid, op['alias']), a)
+                a[op['j']] = val             # the caller keeps using "its" array
             else:
                 raise RuntimeError('bad op')
         except Exception as ex:  # noqa: BLE001   every exception of generated code / NumPy is an outcome
@@ -157,9 +218,14 @@ def run_case(case) -> dict:
     # to_builtin / update_from_builtin round trip and the serializations
     try:
         ref = ser_hex(obj)
+        res['ser_len'] = len(ref) // 2
     except Exception as ex:  # noqa: BLE001
         ref = None
         res['ser_exc'] = type(ex).__name__
+    try:
+        res['model_attr'] = bool(ns.get_model(obj) is type(obj)._MODEL_ and ns.get_class(ns.get_model(obj)) is type(obj))
+    except Exception as ex:  # noqa: BLE001
+        res['model_attr'] = type(ex).__name__
     try:
         b = ns.to_builtin(obj)
     except Exception as ex:  # noqa: BLE001
